@@ -61,18 +61,8 @@ def has_temporal(f):
 
 
 def kd_py_aliased(kd):
-    """the same structure, but installed through Kripke.replace_labelling_function with states of equal label set SHARING one
-    set object (a legitimate state of a Kripke object: the method stores the caller's dict as it is)"""
-    K = kd_py(kd)
-    groups, L = {}, {}
-    for s in K.states():
-        key = frozenset(K.labels(s))
-        L[s] = groups.setdefault(key, set(key))
-    if len(groups) % 2 == 0:
-        # the caller's dict may also carry entries for objects that are not states (e.g. one design-wide labelling dict)
-        L[10 ** 6 + 7] = set(a for ls in L.values() for a in ls) | {'p', 'q'}
-    K.replace_labelling_function(L)
-    return K
+    """the same structure, labels installed with shared set objects (common.alias_labels)"""
+    return alias_labels(kd_py({k: v for k, v in kd.items() if k != 'alias'}))
 
 
 def run_mc(R, logic, cases, label='', alias_every=5):
